@@ -791,11 +791,46 @@ func checkBad(c BadCase) error {
 		c.Obs.Label(true, "mutant-"+cls.String())
 		return nil
 	}
+	if pbt.IsKnown(prop, kfBlankGlue) && blankGlued(c.Text) {
+		pbt.Exclude("known finding " + kfBlankGlue + ": malformed only because of a blank inside parentheses")
+		c.Obs.Label(true, "known-blank-glue")
+		return nil
+	}
 	c.Obs.Label(true, "malformed: "+strings.SplitN(why, ",", 2)[0])
 	c.Obs.Label(true, "mutation: "+c.Mutation)
 	c.Obs.Add("malformed", 1)
 	return mustReject(c.Text, why)
 }
+
+// Known finding: the tokenizer drops blanks inside parentheses before the
+// group is tokenized again, so two tokens separated only by a blank fuse:
+// "(x& &x)" is read as "(x&&x)". The class: a malformed text that stops being
+// malformed when the blanks inside its parentheses are removed.
+const kfBlankGlue = "blank-glued-tokens-in-group"
+
+func blankGlued(text string) bool {
+	var sb strings.Builder
+	depth := 0
+	for i := 0; i < len(text); i++ {
+		switch text[i] {
+		case '(':
+			depth++
+		case ')':
+			depth--
+		case ' ':
+			if depth > 0 {
+				continue
+			}
+		}
+		sb.WriteByte(text[i])
+	}
+	cls, _, _ := classify(sb.String())
+	return cls != clMalformed
+}
+
+func witnessBlankGlue() error { return mustReject("(x& &x)", "operand expected, found operator &") }
+
+func TestKnownFindings(t *testing.T) { pbt.ReportKnown(prop, kfBlankGlue, witnessBlankGlue) }
 
 func genBad(t *rapid.T) BadCase {
 	base := genCase(false, 55)(t)
